@@ -3,48 +3,57 @@
 use crate::__vspec::*;
 use crate::*;
 
-// (proof of the divider contract is the Verus unit lemmas/div_lemmas.rs; SAT cannot prove two divider circuits equal.
-//  These two harnesses are only run to search for a counterexample when that unit fails.)
-// @h name=leaf_div props=C01,C16 fn=crate::div tier=cex t=120 kind=contract
-#[kani::proof_for_contract(crate::div)]
+// The divider postcondition is proved by the Verus unit lemmas/div_lemmas.rs (SAT cannot prove two divider circuits
+// equal).  These two harnesses state the same postcondition in plain form and are only run to search for a
+// counterexample when that unit fails.
+// @h name=leaf_div props=C01 fn=crate::div tier=cex t=120 kind=plain
+#[kani::proof]
 fn leaf_div() {
-    crate::div(kani::any(), kani::any());
+    let (n, d): (i32, i32) = (kani::any(), kani::any());
+    kani::assume(n >= 0 && d > 0);
+    let r = crate::div(n, d);
+    trace("crate::div n d q r", &[n as u64, d as u64, r.0 as u64, r.1 as u64]);
+    assert!(r.0 == n / d && r.1 == n % d, "div(n, d) == (n / d, n % d) for n >= 0, d > 0");
 }
-// @h name=leaf_lldiv props=C01,C16 fn=crate::lldiv tier=cex t=120 kind=contract
-#[kani::proof_for_contract(crate::lldiv)]
+// @h name=leaf_lldiv props=C01 fn=crate::lldiv tier=cex t=120 kind=plain
+#[kani::proof]
 fn leaf_lldiv() {
-    crate::lldiv(kani::any(), kani::any());
+    let (n, d): (i64, i64) = (kani::any(), kani::any());
+    kani::assume(n >= 0 && d > 0);
+    let r = crate::lldiv(n, d);
+    trace("crate::lldiv n d q r", &[n as u64, d as u64, r.0 as u64, r.1 as u64]);
+    assert!(r.0 == n / d && r.1 == n % d, "lldiv(n, d) == (n / d, n % d) for n >= 0, d > 0");
 }
 
-// @h name=leaf_p8_separate_bits_tmp props=C01,C16 fn=P8E0::separate_bits_tmp tier=quick t=120 kind=contract unwind=10
+// @h name=leaf_p8_separate_bits_tmp props=C01 fn=P8E0::separate_bits_tmp tier=quick t=120 kind=contract unwind=10
 #[kani::proof_for_contract(P8E0::separate_bits_tmp)]
 #[kani::unwind(10)]
 fn leaf_p8_separate_bits_tmp() {
     P8E0::separate_bits_tmp(kani::any());
 }
-// @h name=leaf_p16_separate_bits_tmp props=C01,C16 fn=P16E1::separate_bits_tmp tier=quick t=120 kind=contract unwind=18
+// @h name=leaf_p16_separate_bits_tmp props=C01 fn=P16E1::separate_bits_tmp tier=quick t=120 kind=contract unwind=18
 #[kani::proof_for_contract(P16E1::separate_bits_tmp)]
 #[kani::unwind(18)]
 fn leaf_p16_separate_bits_tmp() {
     P16E1::separate_bits_tmp(kani::any());
 }
-// @h name=leaf_p32_separate_bits_tmp props=C01,C16 fn=P32E2::separate_bits_tmp tier=quick t=120 kind=contract unwind=34
+// @h name=leaf_p32_separate_bits_tmp props=C01 fn=P32E2::separate_bits_tmp tier=quick t=120 kind=contract unwind=34
 #[kani::proof_for_contract(P32E2::separate_bits_tmp)]
 #[kani::unwind(34)]
 fn leaf_p32_separate_bits_tmp() {
     P32E2::separate_bits_tmp(kani::any());
 }
-// @h name=leaf_p8_calculate_regime props=C01,C16 fn=P8E0::calculate_regime tier=quick t=120 kind=contract
+// @h name=leaf_p8_calculate_regime props=C01 fn=P8E0::calculate_regime tier=quick t=120 kind=contract
 #[kani::proof_for_contract(P8E0::calculate_regime)]
 fn leaf_p8_calculate_regime() {
     P8E0::calculate_regime(kani::any());
 }
-// @h name=leaf_p16_calculate_regime props=C01,C16 fn=P16E1::calculate_regime tier=quick t=120 kind=contract
+// @h name=leaf_p16_calculate_regime props=C01 fn=P16E1::calculate_regime tier=quick t=120 kind=contract
 #[kani::proof_for_contract(P16E1::calculate_regime)]
 fn leaf_p16_calculate_regime() {
     P16E1::calculate_regime(kani::any());
 }
-// @h name=leaf_p32_calculate_regime props=C01,C16 fn=P32E2::calculate_regime tier=quick t=120 kind=contract
+// @h name=leaf_p32_calculate_regime props=C01 fn=P32E2::calculate_regime tier=quick t=120 kind=contract
 #[kani::proof_for_contract(P32E2::calculate_regime)]
 fn leaf_p32_calculate_regime() {
     P32E2::calculate_regime(kani::any());
